@@ -593,7 +593,7 @@ def reader_cases(ctx, readers, terms, metas, idx, menu):
         for name, _, make in menu[:10]:
             if rng.random() < ctx.n(0.5, 1.0):
                 plan.append((kind, name, make))
-    for _ in range(ctx.n(120, 1500)):
+    for _ in range(ctx.n(260, 2600)):
         plan.append((rng.choice(KINDS), None, None))
     for ci, (kind, name, make) in enumerate(plan):
         cs = rng.choice([1, 2, 2, 3, 4, 4, 5, 6, 7, 8, 9, 16])
@@ -712,7 +712,7 @@ def split_passes(att):
 def creation_cases(ctx, readers, terms, metas, idx, menu):
     from props import c18 as base
     rng = ctx.rng
-    ncases = ctx.n(70, 700)
+    ncases = ctx.n(110, 1000)
     for ci in range(ncases):
         kind = KINDS[ci % len(KINDS)] if ci < 2 * len(KINDS) else rng.choice(KINDS)
         cs = rng.choice([2, 3, 4, 5, 7, 9])
